@@ -638,6 +638,9 @@ class LFDomain:
         dt = time.time() - t0
         res = str(r)
         self.queries.append((name, res, round(dt, 3)))
+        if name not in ("feasibility", "merge") and not name.startswith("feas"):
+            from . import xsolve
+            xsolve.cross(s, name, res)
         if want_model:
             if r == z3.sat:
                 m = s.model()
